@@ -15,6 +15,7 @@ ROOT = os.path.dirname(os.path.abspath(__file__))
 LEAN = os.path.join(ROOT, "lean")
 HARN = os.path.join(ROOT, "harness")
 WORK = os.path.join(ROOT, "work")
+THOROUGH_EXTRA_SEEDS = [1000, 2000]     # thorough tier: seeds seed+1000, seed+2000 in addition
 EVID = os.path.join(ROOT, "evidence")
 REPL = os.path.join(ROOT, "replays")
 HBIN = os.path.join(HARN, "target", "release", "hoot-harness")
@@ -213,6 +214,17 @@ def opkw(line):
     return line.split(" ", 1)[0]
 
 
+def canon(kw, line):
+    """What of a result line takes part in the comparison. `reason`: C10 asks that a reason is given exactly when
+    the connection must close and that it names a condition that holds (judged by the oracle); WHICH of several
+    holding conditions is named is not constrained, so only given / not given is compared with the model."""
+    if kw == "reason" and " => str " in line:
+        head, rest = line.split(" => str ", 1)
+        txt, _, st = rest.rpartition(" @")
+        return f"{head} => str {'-' if txt == '-' else '<given>'} @{st}"
+    return line
+
+
 def compare(pid, impl_lines, model_lines):
     """Line-by-line comparison under the property's projection. Returns (compared, mismatches, stats)
     where mismatches is a list of (case_index, line_no, impl, model)."""
@@ -242,7 +254,7 @@ def compare(pid, impl_lines, model_lines):
                 feat += ":c0" if rp[1] == "0" else ":c+"
                 feat += ":o0" if rp[2] == "-" else ":o+"
             sig.add((kw, feat, a.rsplit(" @", 1)[-1]))
-        if a != b:
+        if canon(kw, a) != canon(kw, b):
             mism.append((ci, i + 1, a, b))
     if len(impl_lines) != len(model_lines):
         mism.append((ci, n + 1, f"<{len(impl_lines)} lines>", f"<{len(model_lines)} lines>"))
@@ -334,6 +346,21 @@ def main():
     # 3/4. generate, execute, replay, judge
     trace = os.path.join(WORK, f"{pid}.{tier}.trace")
     gen_ok = gen_trace(pid, seed, tier, trace)
+    if tier == "thorough":
+        # deeper exploration: further seeds of the thorough generators, appended to the same trace (case ids
+        # get the seed as a suffix so that they stay unique)
+        for extra in THOROUGH_EXTRA_SEEDS:
+            t2 = os.path.join(WORK, f"{pid}.{tier}.s{seed + extra}.trace")
+            ok2 = gen_trace(pid, seed + extra, tier, t2)
+            gen_ok = gen_ok and ok2
+            with open(trace, "ab") as out, open(t2, "rb") as src:
+                for line in src:
+                    if line.startswith(b"case "):
+                        line = line.rstrip(b"\n") + b"~s%d\n" % (seed + extra)
+                    out.write(line)
+            os.remove(t2)
+            if os.path.exists(t2 + ".hang"):
+                os.remove(t2 + ".hang")
     impl_lines = open(trace, errors="replace").read().splitlines()
     compared, mism, cstats = 0, [], {}
     orc = {"ok": 0, "cases": 0, "fails": [], "known": [], "needfull": [], "detail": {}}
